@@ -26,6 +26,9 @@ def cases(tier, seed):
     if tier == "thorough":
         cs.append({"asset": "example_plt_2d", "sel_seed": seed})
         cs.append({"kind": "repo_suite", "sel_seed": seed})
+    # scale: a 256 x 256 level-0 box under two finer levels: at the finest level its footprint is 2**20 pixels
+    cs.append({"scale": "bigbox2d", "gen": dict(seed=seed * 13 + 8180, names=["f0", "f1"]), "fmt": {},
+               "sel_seed": seed * 59 + 8180, "big": True})
     # sequences across tools: 2D plotfiles written by mandoline's own plotfile format from 3D slices
     rng2 = random.Random(seed + 808)
     for k in range(3 if tier == "quick" else 40):
@@ -123,6 +126,9 @@ def run_case(case, work, rec):
     if "asset" in case:
         flists = [[names[0]], [names[-1], "grid_level"], [names[2], names[1]]] if len(names) >= 3 else \
             [[names[0]], [names[-1], "grid_level"], ["all"], ["grid_level"]]
+    if case.get("big"):        # a 1088 x 1024 covering grid: two field lists
+        flists = [[names[0], "grid_level"], ["all"]]
+        rec.count("scale_cases")
     deep = case.get("deep", False)
     if deep:        # 11 levels, a 2048 x 4096 covering grid: one field list, the limits that matter
         flists = [[names[0], "grid_level"]]
